@@ -18,6 +18,8 @@ pub enum Mode {
     Damaged,
     /// Encoder writes to a writer that refuses bytes: must report the failure.
     WriterFault,
+    /// A hand-crafted encoding (unusual but valid, or subtly invalid) with an expected verdict.
+    Crafted,
 }
 
 #[derive(Clone, Debug, Serialize, Deserialize)]
@@ -42,6 +44,7 @@ pub fn generate(rng: &mut Rng, subjects: &[Subject]) -> StreamPlan {
     let value_seed = rng.next_u64();
     let eintr = s.family != Family::ContractsCommon;
     let mode = match rng.below(20) {
+        0..=1 if s.crafted.is_some() => Mode::Crafted,
         0..=5 => Mode::Clean,
         6..=8 => Mode::Cut,
         9..=17 => Mode::Damaged,
@@ -61,7 +64,7 @@ pub fn generate(rng: &mut Rng, subjects: &[Subject]) -> StreamPlan {
     let mut write = WritePlan::clean();
     let mut damage = Vec::new();
     match mode {
-        Mode::Clean => {}
+        Mode::Clean | Mode::Crafted => {}
         Mode::Cut => {
             // position is resolved against the actual length by the executor (permille)
             let at = rng.range(0, 999);
@@ -385,6 +388,62 @@ pub fn execute(plan: &StreamPlan, subjects: &[Subject], rec: &mut Recorder) -> O
                 }
             } else {
                 rec.probe("damaged_rejected");
+            }
+            None
+        }
+        Mode::Crafted => {
+            let craft = match &s.crafted {
+                Some(c) => c,
+                None => return None,
+            };
+            let (b, expect) = craft(plan.value_seed);
+            rec.fault("crafted_encoding");
+            let mut read = plan.read.clone();
+            read.eof_at = None;
+            read.err_at = None;
+            alloc::start();
+            let out = (s.decode)(&b, &read);
+            let st = alloc::stop();
+            note_io(rec, &out.io);
+            rec.log_bytes(&b);
+            rec.log_u64(out.res.is_ok() as u64);
+            if let Some(v) = alloc_check(st, b.len(), "decoding a crafted encoding") {
+                return Some(v);
+            }
+            match (expect, &out.res) {
+                (Some(true), Err(e)) => {
+                    return Some(Violation::new(
+                        "crafted",
+                        format!("crafted-rejected/{}", s.name),
+                        format!("{}: a valid (if unusual) encoding {} is rejected: {}", s.name, hx(&b), e),
+                        0,
+                    ))
+                }
+                (Some(false), Ok(re)) => {
+                    return Some(Violation::new(
+                        "crafted",
+                        format!("crafted-accepted/{}", s.name),
+                        format!("{}: the ill-formed or ill-typed encoding {} is accepted (decoded value re-encodes as {})", s.name, hx(&b), hx(re)),
+                        0,
+                    ))
+                }
+                _ => {}
+            }
+            if let Ok(re) = out.res {
+                if s.stable_bytes {
+                    let out2 = (s.decode)(&re, &ReadPlan::clean());
+                    match out2.res {
+                        Ok(re2) if re2 == re => {}
+                        other => {
+                            return Some(Violation::new(
+                                "roundtrip",
+                                format!("roundtrip-unstable/{}", s.name),
+                                format!("{}: value decoded from {} encodes as {} which then gives {:?}", s.name, hx(&b), hx(&re), other.map(|x| hx(&x))),
+                                0,
+                            ))
+                        }
+                    }
+                }
             }
             None
         }
